@@ -1,8 +1,11 @@
 from props_common import BASE_TB
 
 PROP = {
-    "modules": ["YorkieModel.Props.C05"],
+    "modules": ["YorkieModel.Props.C05", "YorkieModel.Props.C05Srv"],
     "engines": [
+        # real clients + real server with LOST RESPONSES (the HTTP tap drops the answer of a sync after the server
+        # produced it) and the retry – answered with changes or, at low thresholds, with a snapshot
+        {"name": "srv", "args": ["orc=c05"], "quick": {"n": 480, "workers": 8}, "thorough": {"n": 12000, "workers": 14}},
         {"name": "faults", "args": ["orc=c05"],
          "quick": {"n": 152, "workers": 8},
          "thorough": {"n": 5040, "workers": 14}},
